@@ -156,7 +156,17 @@ class Chain:
 
     def _collapse(self, adj):
         if len(self.comp) == 1:
-            self.why = "single node"
+            # a component that is a single segment: a chain of one scaffold node (BO = start of the chromosome's range, NO = 0)
+            v = next(iter(self.comp))
+            if "SN" not in self.tags[v] or "SO" not in self.tags[v]:
+                self.why = "scaffold node without SN/SO"
+                return
+            if not self.name_strict or self.name != self.tags[v]["SN"][1]:
+                self.why = "component is not named after its scaffold nodes by a strict plurality of SN"
+                return
+            self.linear = True
+            self.elements = [("s", v)]
+            self.in_domain = True
             return
         verts, edges = [("s", a) for a in self.artic], set()
         for b in self.blocks:
